@@ -273,6 +273,10 @@ pub fn gen(tier: &str, rng: &mut Rng, emit: &mut Emit) {
         let c = rand_ctor(rng);
         let ops = (0..65_540).map(|_| l(vec![a(2), a(rng.below(3))])).collect();
         emit.case(17, history(rng, c, ops));
+    } else if wants_long_runs(tier, emit) {
+        let c = rand_ctor(rng);
+        let ops = (0..65_538).map(|_| l(vec![a(2), a(rng.below(3))])).collect();
+        emit.case(17, history_at(c, ops, &[65_535, 65_536, 65_537]));
     }
     // references to nodes that start beyond 64 KiB (two maximal ISA strings first): a reference field narrower than the
     // 32-bit offset it carries shows only here
